@@ -22,7 +22,8 @@ func vEndOK(buf []byte, cursor int64) bool {
 			cursor++
 			continue
 		case 0:
-			return true
+			// only the sentinel behind the input ends it
+			return cursor == int64(len(buf))-1
 		}
 		return false
 	}
@@ -33,12 +34,10 @@ func c05Verdicts(t *verifrt.T, doc []byte, accepted bool) {
 	strict := verifref.ValidJSON(doc, verifref.Relax{})
 	num := verifref.ValidJSON(doc, verifref.Relax{NumberGo: true})
 	ctrl := verifref.ValidJSON(doc, verifref.Relax{CtrlInString: true})
-	nul := verifref.ValidJSON(doc, verifref.Relax{NulEnds: true})
-	lax := verifref.ValidJSON(doc, verifref.Relax{NumberGo: true, CtrlInString: true, NulEnds: true})
+	lax := verifref.ValidJSON(doc, verifref.Relax{NumberGo: true, CtrlInString: true})
 	and, implies := verifrt.And, verifrt.Implies
 	t.Known("D3-number-forms-outside-RFC-accepted", and(accepted, !strict, num))
 	t.Known("D4-raw-control-character-in-string-accepted", and(accepted, !strict, ctrl))
-	t.Known("D5-embedded-NUL-ends-input", and(accepted, !strict, nul))
 	t.Assert("accept-only-listed-language", implies(accepted, lax))
 	t.Assert("valid-json-accepted", implies(strict, accepted))
 	t.Cover("accepted-valid", and(accepted, strict))
